@@ -114,3 +114,12 @@ Example old_message_vector_not_current : sr25519_verify_ref old2_pk old2_msg old
 Proof. vm_cast_no_check (eq_refl false). Qed.
 Example old_message_vector_prefix : sr25519_verify_deprecated_prefix old2_pk old2_sig old2_msg = VFail.
 Proof. vm_cast_no_check (eq_refl VFail). Qed.
+
+(* the sr25519-crust signature with its marker bit cleared: rejected by Substrate's
+   verify_deprecated (it is taken for a schnorrkel 0.1.1 signature), accepted by VerifyDeprecated
+   as found, which ignored the marker bit *)
+Definition crust_sig_unmarked := hx64 0x4e172314444b8f820bb54c22e95076f220ed25373e5c178234aa6c211d29271244b947e3ff3418ff6b45fd1df1140c8cbff69fc58ee6dc96df70936a2bb74b02.
+Example crust_unmarked_ref : sr25519_verify_deprecated_ref crust_pk crust_msg crust_sig_unmarked = false.
+Proof. vm_cast_no_check (eq_refl false). Qed.
+Example crust_unmarked_prefix : sr25519_verify_deprecated_prefix crust_pk crust_sig_unmarked crust_msg = VOk.
+Proof. vm_cast_no_check (eq_refl VOk). Qed.
